@@ -71,3 +71,15 @@ check("C15", "exploration", "conservation / replay oracle over recorded write hi
       "On random sequential histories (120 quick / 3000 thorough) on memory and sqlite every ReadChanges walk replays to the current store, has exactly one entry per effective write or delete, its descending walk is the reverse of the ascending one, and the horizon withholds exactly the entries certainly younger than it.",
       "100 ms horizon margin and a clock that is not stepped; histories sequential except the forced schedule.",
       "DESIGN.md §5 C15")
+check("C07", "exploration", "differential monitor BatchCheck item vs standalone Check per correlation id, with engineered near-duplicate items; -race",
+      "Batches of up to 50 items from each seeded case's request space, padded with near-duplicates differing only in a context value, context key order, contextual tuple order / membership, or a contextual tuple's condition context, are sent to servers with batch concurrency 1 and 50, query cache on, and the weighted-graph engine; every correlation id must get exactly one outcome, equal to a standalone Check with the same inputs.",
+      "Standalone Check on the same server is the comparison; the reference semantics arbitrates and classifies differences.",
+      "DESIGN.md §5 C07")
+check("C30", "exploration", "reference-tree monitor: Expand output vs a tree built independently from the model's rewrite and the valid tuples",
+      "For every object#relation of every seeded case (contextual tuples, left-over invalid tuples) the Expand tree must have the rewrite's operator skeleton in operand order, node names object#relation, computed and tuple-to-userset leaves naming the right usersets, and direct-assignment leaves listing exactly the users of the valid stored and contextual tuples, sorted and duplicate-free.",
+      "Tuple validity by harness/ref's validator; tuple-to-userset computed entries compared as a set (their order follows tuple read order).",
+      "DESIGN.md §5 C30")
+check("C32", "exploration", "differential monitor AuthZEN endpoint vs native API on the same server",
+      "Evaluation vs Check, Evaluations (execute_all / deny_on_first_deny / permit_on_first_permit, including where short-circuiting must stop) vs Checks item by item, SubjectSearch vs ListUsers and ResourceSearch vs StreamedListObjects, over each seeded case's request space with object and typed-wildcard subjects and merged subject properties.",
+      "The native API of the same server is the oracle (C01/C05/C06 judge the native API itself).",
+      "DESIGN.md §5 C32")
